@@ -53,6 +53,8 @@ func init() {
 		{"two-nodes-follower-reads(C18 stress)", func(c *harness.Case) { runC18TwoNodes(c, false, false) }},
 		{"watch-catch-up-on-a-small-wrapping-cache", runC19CatchUp},
 		{"two-real-nodes-over-grpc(servers, syncer, election, metrics)", runC19Servers},
+		{"coder-from-many-goroutines(short keys)", func(c *harness.Case) { _ = concurrentRoundTrips(c.Rng.Int63(), 8, 4000) }},
+		{"multi-partition-scans-failing-in-several-partitions", runC19FailingScans},
 		{"follower-becomes-leader(C15 fail-over)", func(c *harness.Case) { c.Index = (c.Index / 6) * 6; runC15(c) }},
 	}
 	Registry["C19"] = &Prop{
@@ -359,4 +361,60 @@ func runC19Servers(c *harness.Case) {
 	atomic.StoreInt32(&stop, 1)
 	wg.Wait()
 	c.Stat("requests_to_two_real_nodes_over_grpc", atomic.LoadInt64(&sent))
+}
+
+// runC19FailingScans: an engine that splits every scan into several partitions, scans whose partition workers fail
+// at the same time (iterator errors in every partition, and request contexts cancelled mid-way), next to scans
+// that succeed.
+func runC19FailingScans(c *harness.Case) {
+	r := c.Rng
+	var keys []string
+	for i := 0; i < 12; i++ {
+		keys = append(keys, fmt.Sprintf("%s/fs/k%02d", harness.Prefix, i))
+	}
+	kv, eng, _, ok := partitionedStore(c, newRand(r.Int63()), []string{"memkv", "tikv"}[c.Index%2], keys, 1000, 40)
+	if !ok {
+		return
+	}
+	defer eng.Close()
+	w := harness.NewWrap(kv)
+	n := harness.NewNode(harness.NodeOpts{KV: w, NoIdleYield: true})
+	defer n.Retire()
+	for _, k := range keys {
+		out := n.Do(harness.SeqOp{Kind: "create", Key: k, Val: []byte("v")})
+		n.Do(harness.SeqOp{Kind: "update", Key: k, Val: []byte("w"), Exp: out.Rev})
+	}
+	n.WaitCommitted(n.Dealt(), 30*time.Second)
+	var failing int32
+	w.IterFault = func(start, end []byte, k int) error {
+		if atomic.LoadInt32(&failing) == 1 && k >= 1 {
+			return fmt.Errorf("injected iterator error")
+		}
+		return nil
+	}
+	full := harness.Prefix + "/"
+	fullEnd := string(backend.PrefixEnd([]byte(full)))
+	var wg sync.WaitGroup
+	var scans int64
+	for g := 0; g < 4; g++ {
+		wg.Add(1)
+		go func(g int) {
+			defer wg.Done()
+			for i := 0; i < 6; i++ {
+				ctx, cancel := context.WithCancel(context.Background())
+				if (i+g)%3 == 0 {
+					go func() { time.Sleep(time.Duration(100*(g+1)) * time.Microsecond); cancel() }()
+				}
+				_, _ = n.B.List(ctx, &pb.RangeRequest{Key: []byte(full), End: []byte(fullEnd)})
+				_, _ = n.B.Count(ctx, &pb.CountRequest{Key: []byte(full), End: []byte(fullEnd)})
+				cancel()
+				atomic.AddInt64(&scans, 2)
+			}
+		}(g)
+	}
+	time.Sleep(2 * time.Millisecond)
+	atomic.StoreInt32(&failing, 1) // every partition of the scans under way (and of their retries) fails
+	wg.Wait()
+	atomic.StoreInt32(&failing, 0)
+	c.Stat("scans_with_failing_partitions", atomic.LoadInt64(&scans))
 }
